@@ -252,6 +252,12 @@ def check_reply(ctx, rng):
                 continue
             sent = face.sent[n0:]
             should = (S.now_ms() <= t_arr + eff)
+            if S.now_ms() == t_arr + eff:
+                # exactly at the deadline instant either reading of "has not elapsed" is legitimate: only truthfulness is judged
+                ctx.event('reply-at-deadline')
+                if bool(ret) != bool(sent):
+                    res['viol'].append((f'reply-return-untruthful:returned={ret!r},sent={bool(sent)}', 'reply return value does not say whether it was sent', w))
+                continue
             ctx.event('reply-sent' if should else 'reply-late')
             ctx.case(('reply', L, off), nontrivial=True)
             if token is not None:
